@@ -161,7 +161,7 @@ func genRnnCase(rt *rapid.T) rnnCase {
 	var c rnnCase
 	c.kind = drawOp(rt, []string{"RNN", "GRU", "LSTM"})
 	c.S = rapid.SampledFrom([]int{1, 1, 2, 2, 3, 4, 5, 8, 2, 3, 17, 40}).Draw(rt, "seq")
-	c.B = rapid.SampledFrom([]int{1, 1, 2, 3, 4, 1, 2, 3, 9, 17}).Draw(rt, "batch")
+	c.B = rapid.SampledFrom([]int{1, 1, 2, 3, 4, 1, 2, 3, 9, 17, 33, 34}).Draw(rt, "batch")
 	c.I = rapid.SampledFrom([]int{1, 2, 2, 3, 4, 1, 2, 3, 16, 17}).Draw(rt, "input")
 	c.H = rapid.SampledFrom([]int{1, 2, 2, 3, 3, 4, 5, 1, 2, 3, 4, 5, 16, 33}).Draw(rt, "hidden")
 	for c.S*c.B*c.I > 1500 {
